@@ -38,6 +38,7 @@ type sessEvent struct {
 	Sender uint64 // process level: the sender identifier handed to the service
 	Caller string // handler level: authenticated name ("" = none)
 	Fault  string // contribute: "", badshare, otherid, badvvec; execute: "" or "drop<k>"
+	Self   bool   // handler level, prepare by a stranger: the caller lists ITSELF (own name, identifier 77) as a participant
 	Sleep  time.Duration
 }
 
@@ -272,6 +273,9 @@ func (r *sessRunner) step(ev *sessEvent, created map[string]bool) {
 				pbeps[i] = &pb.Endpoint{Id: id, Name: nodeName(id), Port: uint32(10000 + id%50000)}
 			}
 			if r.handler {
+				if ev.Self {
+					pbeps = append(pbeps, &pb.Endpoint{Id: 77, Name: ev.Caller, Port: 10077})
+				}
 				_, err = r.n.Receiver.Prepare(hctx, &pb.PrepareRequest{Account: ev.Acct, Passphrase: []byte("pass"), Threshold: ev.Thr, Participants: pbeps})
 			} else {
 				err = r.n.Process.OnPrepare(r.ctx, senderID, ev.Acct, []byte("pass"), ev.Thr, eps)
@@ -285,7 +289,11 @@ func (r *sessRunner) step(ev *sessEvent, created map[string]bool) {
 					}
 				}
 			}
-			msg = fmt.Sprintf("RPrepare %s %d %s", coqStr(ev.Acct), ev.Thr, coqNs(ev.Parts))
+			emitted := ev.Parts
+			if r.handler && ev.Self {
+				emitted = append(append([]uint64{}, ev.Parts...), 77)
+			}
+			msg = fmt.Sprintf("RPrepare %s %d %s", coqStr(ev.Acct), ev.Thr, coqNs(emitted))
 		case "execute":
 			drop := 0
 			if strings.HasPrefix(ev.Fault, "drop") {
@@ -647,6 +655,9 @@ func genSessSeq(rng *PRNG, ids []uint64, self uint64, handler bool, n int) []ses
 	add := func(e sessEvent) {
 		c, id := pickCaller()
 		e.Caller, e.Sender = c, id
+		if e.Kind == "prepare" && handler && id == 0 && c != "" && rng.Chance(50) {
+			e.Self = true
+		}
 		if e.Kind == "contribute" && !handler && rng.Chance(15) {
 			e.Sender = []uint64{4242, self, 1 << 63}[rng.Intn(3)]
 		}
@@ -959,6 +970,75 @@ func shareOwnershipSweep(ctx context.Context, thorough bool) ([]string, int, err
 					fails = append(fails, fmt.Sprintf("ownership: %d handed the same share to %d and %d", rid, prev, cid))
 				}
 				seen[sk.SerializeToHexStr()] = cid
+			}
+		}
+		// different callers at the same time: a stranger is refused every time, each peer gets its own share,
+		// the generation survives
+		if len(ids) >= 3 {
+			R := c.Nodes[ids[0]]
+			acct := "Wallet 3/conc"
+			if err := R.Process.OnPrepare(ctx, ids[0], acct, []byte("pass"), thr, eps); err == nil {
+				var pre *standardprocess.VerifSession
+				for _, s := range R.Process.VerifSessions() {
+					if s.Account == acct {
+						s := s
+						pre = &s
+					}
+				}
+				stop := time.Now().Add(500 * time.Millisecond)
+				var cmu sync.Mutex
+				var cwg sync.WaitGroup
+				calls := 0
+				var cfails []string
+				peerCaller := func(cid uint64) {
+					defer cwg.Done()
+					share, vv := harnessContribution(int(thr), ids[0], "")
+					req := &pb.ContributeRequest{Account: acct, Secret: share.Serialize()}
+					for i := range vv {
+						req.VerificationVector = append(req.VerificationVector, vv[i].Serialize())
+					}
+					for time.Now().Before(stop) {
+						res, err := R.Receiver.Contribute(ctxWithClient(ctx, nodeName(cid), ""), req)
+						cmu.Lock()
+						calls++
+						if err != nil {
+							cfails = append(cfails, fmt.Sprintf("concurrent callers: contribution of peer %d refused: %v", cid, err))
+						} else if pre != nil && !sameBytes(res.GetSecret(), pre.Dealt[cid]) {
+							cfails = append(cfails, fmt.Sprintf("concurrent callers: the reply to peer %d does not carry the share dealt to %d", cid, cid))
+						}
+						cmu.Unlock()
+					}
+				}
+				stranger := func(name string) {
+					defer cwg.Done()
+					for time.Now().Before(stop) {
+						_, err := R.Receiver.Abort(ctxWithClient(ctx, name, ""), &pb.AbortRequest{Account: acct})
+						cmu.Lock()
+						calls++
+						if err == nil || !strings.Contains(err.Error(), "unknown sender") {
+							cfails = append(cfails, fmt.Sprintf("concurrent callers: Abort by %q (not a peer) was not refused: %v", name, err))
+						}
+						cmu.Unlock()
+					}
+				}
+				cwg.Add(4)
+				go peerCaller(ids[1])
+				go peerCaller(ids[2])
+				go stranger("client1")
+				go stranger("mallory")
+				cwg.Wait()
+				alive := false
+				for _, s := range R.Process.VerifSessions() {
+					alive = alive || s.Account == acct
+				}
+				if !alive {
+					cfails = append(cfails, "concurrent callers: the generation was destroyed although only strangers sent Abort")
+				}
+				if len(cfails) > 10 {
+					cfails = cfails[:10]
+				}
+				fails = append(fails, cfails...)
+				pairs += calls
 			}
 		}
 		// a configured peer that is NOT a participant of the generation gets nobody's share
